@@ -321,7 +321,8 @@ public:
             throw nix::InvalidDimension("The ticks of a range dimension must not be empty!",
                                         "DataArray::appendRangeDimension");
         }
-        if (!std::is_sorted(ticks.begin(), ticks.end())) {
+        // ascending: no neighbours with !(a <= b); unlike std::is_sorted this also refuses a NaN among the ticks
+        if (std::adjacent_find(ticks.begin(), ticks.end(), [](double a, double b) { return !(a <= b); }) != ticks.end()) {
             throw UnsortedTicks("DataArray::appendRangeDimension");
         }
         if (unit.size() > 0 && !util::isSIUnit(unit)) {
